@@ -39,7 +39,10 @@ type ship1Opts struct {
 	noPeerHelloEv bool // the peer never sends unsolicited hello events (abort, prolongation)
 	// inject, if set, is asked before every peer event: when it returns ok the
 	// frame is delivered at once (a frame that must meet a particular state)
-	inject       func(state int) (frame, class string, ok bool)
+	inject func(state int) (frame, class string, ok bool)
+	// silent, if set, is asked before every peer event: once it returns true the peer
+	// sends nothing more and keeps the connection open (the quiet period starts)
+	silent       func(state int) bool
 	asyncConnErr float64  // probability of a transport error reported from a second goroutine (the ws write pump)
 	amOrders     []string // order variants of the access-methods exchange (C09)
 	noAmDeviants bool
@@ -303,6 +306,9 @@ func (s *ship1) peerLoop() {
 		}
 		if ev == s.asyncErrAt {
 			close(s.asyncTrig)
+		}
+		if s.o.silent != nil && s.o.silent(int(s.state())) {
+			return
 		}
 		if s.o.inject != nil && !s.tw.isClosed() {
 			if f, class, ok := s.o.inject(int(s.state())); ok {
